@@ -368,6 +368,110 @@ def c07(tier, seed):
                   nontrivial, cov,
                   SEQ_ASSUME + ["NDEBUG builds only (debug builds assert after a failed decommit by design)", "a plan whose fault never fired counts as not covered"])
 
+# ---- C13: pairwise covering array over the commit / purge / arena options --------------------------------------------
+OPTION_DOMAINS = [
+    ("MIMALLOC_PURGE_DELAY", ["-1", "0", "1", "10"]),
+    ("MIMALLOC_PURGE_DECOMMITS", ["0", "1"]),
+    ("MIMALLOC_PURGE_EXTEND_DELAY", ["0", "1"]),
+    ("MIMALLOC_EAGER_COMMIT", ["0", "1"]),
+    ("MIMALLOC_EAGER_COMMIT_DELAY", ["0", "1", "4"]),
+    ("MIMALLOC_ARENA_EAGER_COMMIT", ["0", "1", "2"]),
+    ("MIMALLOC_DISALLOW_ARENA_ALLOC", ["0", "1"]),
+    ("MIMALLOC_ARENA_RESERVE", ["65536", "262144", "1048576"]),      # KiB: 64 MiB, 256 MiB, 1 GiB
+    ("MIMALLOC_ARENA_PURGE_MULT", ["1", "10"]),
+    ("MIMALLOC_ABANDONED_PAGE_PURGE", ["0", "1"]),
+    ("MIMALLOC_ABANDONED_RECLAIM_ON_FREE", ["0", "1"]),
+    ("MIMALLOC_TARGET_SEGMENTS_PER_THREAD", ["0", "2", "4"]),
+    ("MIMALLOC_ALLOW_LARGE_OS_PAGES", ["0", "2"]),
+]
+
+def covering_array(domains, strength, rnd):
+    """greedy t-wise covering array (t = strength) generated from the seed"""
+    names = [d[0] for d in domains]
+    n = len(domains)
+    combos = list(itertools.combinations(range(n), strength))
+    uncovered = set()
+    for cb in combos:
+        for vals in itertools.product(*[range(len(domains[i][1])) for i in cb]):
+            uncovered.add((cb, vals))
+    rows = []
+    while uncovered:
+        best = None; bestc = -1
+        for _ in range(40):
+            # seed a candidate from a random uncovered tuple, fill the rest randomly
+            cb, vals = rnd.choice(tuple(uncovered)) if len(uncovered) < 4000 else next(iter(uncovered))
+            row = [rnd.randrange(len(d[1])) for d in domains]
+            for i, v in zip(cb, vals): row[i] = v
+            c = sum(1 for cb2 in combos if (cb2, tuple(row[i] for i in cb2)) in uncovered)
+            if c > bestc: best, bestc = row, c
+        rows.append(best)
+        for cb2 in combos: uncovered.discard((cb2, tuple(best[i] for i in cb2)))
+    return [{names[i]: domains[i][1][row[i]] for i in range(n)} for row in rows]
+
+@check("C13")
+def c13(tier, seed):
+    t0 = time.time(); prop = "C13"
+    variants = ["rel", "dbg"] + (["sec"] if tier == "thorough" else [])
+    build.build_many([("drv_seq", v) for v in variants])
+    rnd = random.Random(seed * 7919 + 13)
+    vectors = covering_array(OPTION_DOMAINS, 2 if tier == "quick" else 3, rnd)
+    if tier == "thorough": vectors = vectors[:220]
+    profiles = ["general", "aligned", "zero", "realloc", "walk"]
+    ops = tier_n(tier, 2500, 6000)
+    cases = []; idx = 0
+    for vi, vec in enumerate(vectors):
+        for v in variants:
+            for k in range(tier_n(tier, 1, 4)):
+                prof = profiles[(vi + k + (0 if v == "rel" else 2)) % len(profiles)]
+                s = case_seed(seed, prop, idx); idx += 1
+                args = ["--profile", prof, "--generic", "C13", "--seed", s, "--ops", ops, "--clock-jitter", rnd.choice([5, 50, 500]), "--purge-cb", 1, "--max-live-mb", 96]
+                if prof in ("zero", "general") and (vi + k) % 3 == 0: args += ["--threads", 1]
+                env = dict(vec)
+                if vec.get("MIMALLOC_TARGET_SEGMENTS_PER_THREAD", "0") != "0":
+                    # forced abandonment: live blocks may sit in segments the thread was made to abandon; they are visible through mi_abandoned_visit_blocks only
+                    env["MIMALLOC_VISIT_ABANDONED"] = "1"; args += ["--abandon-ok", 1]
+                cases.append(_drv_case(prop, "C13-v%d-%s-%s-%d" % (vi, prof, v, s), v, args, env=env, timeout=300, meta={"vector": vi, "profile": prof, "config": envname(vec), "seed": s}))
+    v = Verdict(prop)
+    # under a non-default option vector every C01-C05/C12 oracle refutes C13 as well (the statement: "the guarantees above hold unchanged under every supported option setting")
+    for c in core.run_cases(cases):
+        r = c.result
+        if r and "trip" in r:
+            ref = r["trip"].get("refutes", [])
+            if any(x in ref for x in ("C01", "C02", "C03", "C04", "C05", "C12")) and "C13" not in ref: ref.append("C13")
+        v.add(c)
+    cov = seq_cov(cases)
+    cov["option_vectors"] = len(vectors); cov["covering_strength"] = 2 if tier == "quick" else 3
+    cov["option_vector_samples"] = vectors[:4]
+    cov["purge_ranges_checked_against_live_blocks"] = core.sum_field(cases, "purge_ranges_checked")
+    cov["virtual_clock_ms_advanced"] = core.sum_field(cases, "clock_ms")
+    cov["profiles"] = {p: sum(1 for c in cases if c.meta["profile"] == p) for p in profiles}
+    return finish(prop, tier, seed, "exploration", v, cases, t0,
+                  "a case = one option vector of a pairwise (thorough: 3-wise) covering array over 13 commit/purge/arena options x one history profile of C01/C03/C04/C05/C12 x one build variant, with the "
+                  "virtual clock advanced randomly between operations (so delayed purges fire) and every madvise(DONTNEED/FREE)/mprotect(PROT_NONE) range checked against the live blocks of the shadow model "
+                  "before it is executed (debug builds: decommit really revokes access, a touch of a decommitted live page faults); non-trivial = >=500 allocations and >=1 purge range checked; "
+                  "distinct = (variant, option vector, op-list hash)",
+                  lambda r, c: r.get("allocs", 0) >= 500 and (r.get("purge_ranges_checked", 0) >= 1 or "PURGE_DELAY=-1" in c.meta.get("config", "").upper()), cov,
+                  SEQ_ASSUME + ["options are set through MIMALLOC_* environment variables at process start"])
+
+@check("C10")
+def c10(tier, seed):
+    t0 = time.time(); prop = "C10"
+    variants = ["rel", "dbg", "sec"]
+    cases = seq_cases(prop, "heaps", variants, tier_n(tier, 24, 400), tier_n(tier, 4000, 10000), seed)
+    cases += seq_cases(prop, "heaps", ["rel", "dbg"], tier_n(tier, 8, 100), tier_n(tier, 3000, 8000), seed, extra_args=["--threads", 1], label_prefix="thr-", start_index=70000)
+    mt = mt_cases(prop, "heapdel", tier, seed) if "mt_cases" in globals() else []
+    allc = cases + mt
+    v = Verdict(prop)
+    for c in core.run_cases(allc): v.add(c)
+    cov = seq_cov(cases)
+    cov["heap_ops"] = {"new": core.sum_field(cases, "heap_new"), "delete": core.sum_field(cases, "heap_delete"), "destroy": core.sum_field(cases, "heap_destroy"), "ownership_queries": core.sum_field(cases, "queries")}
+    if mt: cov["concurrent"] = mt_cov(mt)
+    return finish(prop, tier, seed, "exploration", v, allc, t0,
+                  "sequential: a case = one history with up to 8 first-class heaps (new / allocate / delete / destroy / set_default in any order, blocks of exited threads adopted meanwhile), ownership "
+                  "queries (mi_heap_contains_block, mi_heap_check_owned, mi_check_owned) on live blocks against every heap, conservation after destroy, default-heap checks; concurrent: see 'concurrent'; "
+                  "non-trivial = >=20 heap deletes/destroys and >=100 ownership queries (sequential) or >=1 remote free racing a heap delete (concurrent); distinct = (variant, op-list hash / schedule hash)",
+                  lambda r, c: (r.get("heap_delete", 0) + r.get("heap_destroy", 0) >= 20 and r.get("queries", 0) >= 100) or r.get("mt", {}).get("remote_frees", 0) >= 1, cov, SEQ_ASSUME)
+
 # ---------------------------------------------------------------------------------------------
 def setup():
     import compileall
